@@ -337,3 +337,91 @@ func VH_C19_SymbolicDataBuffer() {
 	}
 	vhReach("data-buffer-done")
 }
+
+// Registers that are well-formed but LIE: every numeric field an encoder copies
+// from memory into a register (a map's element count and seed, an array or map
+// child entry's count / size / first digest, a sibling link) is replaced by an
+// arbitrary value before the real encoder writes the register. The decoders do
+// not -- and cannot -- cross-check all of them against the content, so such a
+// register may well decode; what the property demands is that decoding and the
+// accessors of the slab it returns stay panic-free and allocate in proportion
+// to the register, whatever the fields claim.
+//
+//vh:prop C19
+//vh:init cbor
+func VH_C19_LyingFields() {
+	vhSetThreshold(256)
+	storage := vhNewByteStorage()
+	addr := vhAddr(1)
+	var victim Slab
+	switch vhChoose("kind", 4) {
+	case 0: // map root data slab: count and seed in the root's extra data
+		m, _ := NewMap(storage, addr, NewDefaultDigesterBuilder(), vTypeInfo{id: 44})
+		for i := 0; i < 2; i++ {
+			_, _ = m.Set(vhCompareBK, vhHipB, vBKey{val: uint64(i + 1)}, vU64(uint64(i)))
+		}
+		r := m.root.(*MapDataSlab)
+		r.extraData.Count = vhU64("count")
+		r.extraData.Seed = vhU64("seed")
+		victim = r
+	case 1: // parent whose inlined child maps (plain, and two composites sharing a shape) carry arbitrary counts
+		a, _ := NewArray(storage, addr, vTypeInfo{id: 42})
+		pm, _ := NewMap(storage, addr, NewDefaultDigesterBuilder(), vTypeInfo{id: 47})
+		_, _ = pm.Set(vhCompareBK, vhHipB, vBKey{val: 100}, vU64(1))
+		_ = a.Append(pm)
+		var cms []*OrderedMap
+		for i := 0; i < 2; i++ {
+			cm, _ := NewMap(storage, addr, NewDefaultDigesterBuilder(), vCompositeTypeInfo{id: 7})
+			_, _ = cm.Set(vhCompareBK, vhHipB, vBKey{val: 100}, vU64(uint64(i)))
+			_, _ = cm.Set(vhCompareBK, vhHipB, vBKey{val: 101}, vU64(uint64(i+5)))
+			_ = a.Append(cm)
+			cms = append(cms, cm)
+		}
+		pm.root.(*MapDataSlab).extraData.Count = vhU64("count")
+		cms[vhChoose("which", 2)].root.(*MapDataSlab).extraData.Count = vhU64("ccount")
+		victim = a.root
+	case 2: // array index slab: child counts and sizes
+		a, _ := NewArray(storage, addr, vTypeInfo{id: 42})
+		for i := 0; i < 6; i++ {
+			_ = a.Append(vBlob{n: 97})
+		}
+		r, ok := a.root.(*ArrayMetaDataSlab)
+		vhRequire(ok, "array root is an index slab")
+		c := vhChoose("child", len(r.childrenHeaders))
+		r.childrenHeaders[c].count = vhU32("ccount")
+		r.childrenHeaders[c].size = vhU32("csize")
+		victim = r
+	case 3: // map index slab: first digests and sizes
+		m, _ := NewMap(storage, addr, NewDefaultDigesterBuilder(), vTypeInfo{id: 44})
+		for i := 0; i < 6; i++ {
+			_, _ = m.Set(vhCompareBK, vhHipB, vBKey{val: uint64(i + 1)}, vBlob{n: 80})
+		}
+		r, ok := m.root.(*MapMetaDataSlab)
+		vhRequire(ok, "map root is an index slab")
+		c := vhChoose("child", len(r.childrenHeaders))
+		r.childrenHeaders[c].firstKey = Digest(vhU64("fk"))
+		r.childrenHeaders[c].size = vhU32("csize")
+		victim = r
+	}
+	data, err := EncodeSlab(victim, storage.cborEncMode)
+	if err != nil {
+		// an encoder may refuse what it cannot represent (e.g. a child size beyond 16 bits)
+		vhReach("lying-not-encodable")
+		return
+	}
+	// "in proportion": a small multiple of the register's length, in elements (a
+	// one-byte field can at most ask for a few dozen; what must not happen is a
+	// request that grows with the VALUE a field claims)
+	vhSetAllocLimit(16*len(data) + 64)
+	slab, err := DecodeSlab(victim.SlabID(), data, vhRealDecMode(), vhDecodeStorableB, vhDecodeTypeInfo)
+	if err == nil {
+		vhAssert(slab != nil, "success returns a slab")
+		vhExerciseSlab(slab)
+		// ... and the queries a storage makes on an accepted slab
+		_, _ = IsRootOfAnObject(data)
+		_, _ = HasPointers(data)
+		vhReach("lying-decoded")
+	} else {
+		vhReach("lying-rejected")
+	}
+}
